@@ -130,6 +130,14 @@ def run_case(case, ctx):
     d = nd.Derivative(rec, method=method, n=n, order=order, full_output=True)
     try:
         with np.errstate(all='ignore'):
+            if case['seed'] % 3 == 0:
+                # the object has served a call with other extra arguments (and another shape) before
+                ctx.count('object_called_before_with_other_extra_arguments')
+                try:
+                    d(np.array([0.9, 1.1, 1.3]), 1.75, b=0.625)
+                except Exception:
+                    pass
+                del rec.calls[:]
             out, info = d(laid_out(x) if shape else float(x), *args, **kwds)
     except Exception as exc:
         ctx.reject('raised', observed=repr(exc)[:200], method=method)
